@@ -288,6 +288,15 @@ def db_ops(ir):
     def f(db, other):
         return db.copy(["nope", "a", "b"], ["n3", "a3", "b3"])
     ops.append(("copy(source with a missing name,target)", f, lambda c1, c2: {"a3": c1["a"], "b3": c1["b"]}))
+    # renaming is a simultaneous substitution on the keys: permutations and chains lose nothing
+    def f(db, other):
+        db.rename(["a", "b"], ["b", "a"])
+        return db
+    ops.append(("rename(swap a<->b)", f, lambda c1, c2: {{"a": "b", "b": "a"}.get(n, n): c for n, c in c1.items()}))
+    def f(db, other):
+        db.rename(["a", "b", "c"], ["b", "c", "a2"])
+        return db
+    ops.append(("rename(chain a->b->c->a2)", f, lambda c1, c2: {{"a": "b", "b": "c", "c": "a2"}.get(n, n): c for n, c in c1.items()}))
     if hasattr(ir.Databox, "shallow"):
         def f(db, other):
             return db.shallow(["a", "nope", "d"], ["a4", "n4", "d4"])
